@@ -47,9 +47,15 @@ def run(tier, seed, replay=None):
         if r.random() < 0.3:
             doc["definitions"]["FloatChoice"] = {"oneOf": [{"type": "number"}, {"type": "array", "items": {"type": "number"}}]}
         settings, sig = workloads.sample_settings(r, doc)
-        settings.pop("derives", None)   # user derives are the user's responsibility; not part of the promise
+        # user derives are the user's responsibility and not part of the promise -- except that asking for a trait
+        # every type already carries must not take it away: those requests are kept
+        keep = [d for d in settings.pop("derives", []) if d in ("Clone", "Debug")]
+        if keep:
+            settings["derives"] = keep
         for p in settings.get("patches", []):
-            p.pop("derives", None)
+            pk = [d for d in p.pop("derives", []) if d in ("Clone", "Debug")]
+            if pk:
+                p["derives"] = pk
         if r.random() < 0.25:
             settings["conversions"] = [{"schema": {"type": "string"}, "type": "::vrt::support::Repl", "impls": ["Display"]}]
         cid = "d%04d" % i
